@@ -1,0 +1,8 @@
+//go:build !verif
+
+package time
+
+import "context"
+
+// verifSleep is a verification hook; empty unless built with -tags verif.
+func verifSleep(ctx context.Context, seconds float64) {}
